@@ -3,7 +3,7 @@ CONFIG = {
     "coq_dirs": ["theories/Pool"],
     "coq_targets": ["theories/Pool/Properties.vo", "theories/Pool/Corr.vo"],
     "properties_files": ["theories/Pool/Properties.v"],
-    "required_theorems": ["sectors_partition", "all_closed_all_free", "quota_conserved", "quota_monitor_accepts_model", "isolation", "write_refines_bytes", "read_refines_bytes"],
+    "required_theorems": ["sectors_partition", "all_closed_all_free", "quota_conserved", "quota_monitor_accepts_model", "isolation", "write_refines_bytes", "read_refines_bytes", "file_refines_bytes", "truncate_refines_bytes", "seek_refines_regions"],
     "harnesses": [
         {"cmd": "pool", "cases_quick": 320, "cases_thorough": 12000, "shards_quick": 8, "shards_thorough": 32},
     ],
@@ -18,7 +18,7 @@ CONFIG = {
         "design_ref": "DESIGN.md §4 Pool/C15",
     },
     "assumptions": [
-        "partial: Truncate content (keep below new size, null bytes on re-grow), GetNextRegionOffset and the event-level acceptance of the sector monitor are not proved; they are checked by the correspondence run (P evaluated on every implementation trace)",
+        "file_refines_bytes (the complete monitor p_step accepts every model trace) is proved for histories whose NewFile operations satisfy op_wf: the hole source is not longer than the file (HoleSource contract of the harness; the generator only produces such histories)",
         "offsets and sizes < 2^40 (Go int/int64 overflow is not modelled; the model uses unbounded N/nat)",
         "hole sources obey the HoleSource contract: never EOF, null bytes beyond their length, length <= file size at NewFile",
         "uint64 shifts / bits.TrailingZeros64 of the bitmap allocator are modelled as a flat bit list (validated differentially on every allocation)",
